@@ -576,4 +576,24 @@ def _cov_c18(st, tier):
     return c
 PROPS["C18"]["coverage"] = _cov_c18
 PROPS["C18"]["level_text"] += " For ten configurations (among them server and client addresses of 15 characters) every slot is also taken through the real server loop (version + login), and the server address, client address, mtu and netmask announced in the login reply must be the ones the server's table holds, distinct, and found by the lookup."
+_cov_c08_base = PROPS["C08"]["coverage"]
+def _cov_c08(st, tier):
+    c = _cov_c08_base(st, tier)
+    n = st.get("chunks_through_server_loop", 0)
+    c["data_chunks_through_the_real_server_loop"] = n
+    c["states"] += n; c["transitions"] += n; c["traces_validated_against_impl"] += n; c["evaluations"] += n
+    return c
+PROPS["C08"]["coverage"] = _cov_c08
+PROPS["C08"]["level_text"] += " Part C hands data chunks of every length 1..capacity+1 (four codecs, three domains, three limits, two contents) built by the real build_hostname() to the real server loop of a logged-in session that switched to the codec; the session's reassembly buffer must hold exactly the prefix the builder reported (the server's own guards in handle_null_request() are part of the path)."
+PROPS["C10"]["parts"].append({"name": "eb", "harness": "lazy.c", "flavor": "ubsan", "images": (("s", "server"),), "args": ["--prop", "C10"], "weight": 2})
+PROPS["C10"]["level_text"] += " A further part runs the lazy-mode letter search of C14 (pings, data, re-deliveries in four disguises, tun packets, +20 ms / +1 s, raw login and raw frames, lazy on/off; depth 4/5) with this property's oracle: every datagram the server emits is strictly parsed and every answer must carry the id, name and type of a query that was received from that address and not yet answered."
+_cov_c10_base = PROPS["C10"]["coverage"]
+def _cov_c10(st, tier):
+    c = _cov_c10_base(st, tier)
+    eb = st["parts"].get("eb")
+    if eb:
+        c["eb_part"] = {"states": eb["states"], "transitions": eb["transitions"], "answers_seen": eb.get("answers_seen"), "depth_completed": eb.get("maxdepth"), "alphabet_size": eb.get("letters"), "wall_s": eb.get("wall_s")}
+        c["states"] += eb["states"]; c["transitions"] += eb["transitions"]; c["traces_validated_against_impl"] += eb["transitions"]; c["evaluations"] += eb.get("letters_applied", 0)
+    return c
+PROPS["C10"]["coverage"] = _cov_c10
 
